@@ -1237,7 +1237,7 @@ func matMain(o Opts) {
 	if strings.HasPrefix(o.Extra, "mat:") {
 		corpus = o.Extra[4:]
 	}
-	per := 12
+	per := 24
 	w := NewCaseWriter(o.Out, "mat", hdrMat, "mism_mat", per)
 	w.Type = "mcase"
 	w.Rule = ruleMat
